@@ -127,7 +127,18 @@ def run(ctx):
                     mk.append(p)
                 if nd.get('k') == 'Assign' and H.peel(nd['l']).get('k') == 'Field' and H.peel(nd['l'])['name'] == 'frame_buffer':
                     r.bad('frame_buffer-reassigned:%s' % p, ctx.site(p, nd), why='re-creating the buffer would drop a partially received frame')
-        r.eq('one-buffer', mk, ['io_loop::IoLoop::new'], None)
+        # the loop's buffer: IoLoop is built in one place, with a fresh buffer in its (only) FrameBuffer field
+        lits = []
+        for p, fn in sorted(ctx.fns.items()):
+            if 'hir' not in fn or fn.get('mac'):
+                continue
+            for nd in H.walk(fn['hir']):
+                if nd.get('k') == 'Struct' and H.res_path(nd['res']) == 'io_loop::IoLoop':
+                    fv = dict((n, H.term(e)) for n, e in nd['fields'])
+                    lits.append((ctx.owner(p), fv.get('frame_buffer')))
+        r.eq('one-buffer', lits, [('io_loop::IoLoop::new', 'frame_buffer::FrameBuffer::new()')], None, why='a second loop state, or a buffer that is not fresh, would drop or duplicate partially received frames')
+        fb_fields = [f['name'] for f in ctx.adt('io_loop::IoLoop')['variants'][0]['fields'] if 'FrameBuffer' in f['ty']]
+        r.eq('one-buffer-field', fb_fields, ['frame_buffer'], None)
         for hp in ('io_loop::IoLoop::handle_steady_event', 'io_loop::IoLoop::handle_handshake_event'):
             evs, _ = ctx.events(hp)
             rd = [e for e in evs if e.kind == 'call' and e.callee == 'io_loop::Inner::read_from_stream']
